@@ -1,3 +1,333 @@
-import Lomond.Model.Core
+/-
+  C09 — transport failures become events, never exceptions or hangs.
+  Property theorems only (helper lemmas: Proofs/Raises.lean, Monitor.lean, MonitorList.lean,
+  Terminate.lean, RunAll.lean).
+
+  In the model every Python exception is a value of `Core.Exn`: `socketFail` (`_SocketFail`: recv
+  errors, connection lost), `other` (any other `Exception`: selector errors, exceptions from `recv`
+  that are not `socket.error`, ValueError from `send_pong`), `forceDisconnect`, `protocol`,
+  `critical`, `parse` — and the two that are not `Exception`s: `genExit` (the consumer abandoned the
+  iterator) and `scriptEnd` (model artefact: the environment script is exhausted).  Failed writes are
+  values (`ActRes.transportFail`), as in the code, where `write` turns them into `TransportFail`.
+  The theorems hold for every configuration (connect outcome, per-write failures `writeFails`),
+  every application and every environment script, i.e. for a fault at every socket operation.
+-/
+import Lomond.Proofs.RunAll
+import Lomond.Proofs.Connect
+
 namespace Lomond.C09
+open Lomond Lomond.Core Lomond.Core.Monitor
+
+/-- **No exception escapes the event iterator.**  From *any* state: if `run()` ends exceptionally,
+    then either the application abandoned the iterator (`GeneratorExit`, and the application is one
+    that abandons), or the model's environment script ran out.  Every `Exception`-class error —
+    `recv` failing or returning end-of-stream at any point, `selector.wait` raising, failed library
+    writes, protocol errors, time-outs — is converted into an event. -/
+theorem no_escape (s : Sys) (x : Exn) (s' : Sys) (h : run s = .err x s') :
+    (x = .genExit ∧ Abandons s.react) ∨ x = .scriptEnd :=
+  run_raises s h
+
+/-- the session loop itself only ever raises what `run()`'s `except` clauses handle (plus the two
+    non-`Exception`s): no `.outer` wrapper, i.e. nothing raised in `run()`'s own frame at a `yield`
+    of `feed` is lost or mis-routed -/
+theorem loop_raises_handled (env : List EnvStep) (s : Sys) (x : Exn) (s' : Sys) (h : loop env s = .err x s') :
+    (match x with
+      | .outer _ => False
+      | .genExit => Abandons s'.react
+      | _ => True) := by
+  rcases raises_loop env s x s' h with h0 | ⟨rfl, _⟩
+  · cases x <;> first | exact h0 | trivial
+  · trivial
+
+/-- **… and it never waits forever once the transport has failed**: over a script that ends with a
+    transport failure `X` (EOF / socket error / other exception from `recv`, or an exception from
+    `selector.wait`), `run()` returns — the only other outcome is the application abandoning it. -/
+theorem returns_after_transport_failure (cfg : Cfg) (react : React) (pre : List EnvStep) (X : EnvStep)
+    (hX : EnvStep.isEnd X = true) :
+    (∃ s', run (initSys cfg react (pre ++ [X])) = .ok () s') ∨
+    (∃ s', run (initSys cfg react (pre ++ [X])) = .err .genExit s' ∧ Abandons react) :=
+  run_end_cases pre X hX (initSys cfg react (pre ++ [X])) rfl
+
+/-- the events of a whole connection attempt, oldest first -/
+def eventsOf (cfg : Cfg) (react : React) (env : List EnvStep) : List Event :=
+  events (runAll cfg react env).trace
+
+/-- **`ConnectFail` before the connection is up**: a `ConnectFail` event directly follows
+    `Connecting` — no `Connected` event precedes it — and nothing follows it. -/
+theorem terminal_kind_connectFail (cfg : Cfg) (react : React) (env : List EnvStep)
+    (a b : List Event) (k : String) (he : eventsOf cfg react env = a ++ .connectFail k :: b) :
+    (∀ p, Event.connected p ∉ a) ∧ a = [.connecting] ∧ b = [] := by
+  obtain ⟨ph, h⟩ := runAll_accepted cfg react env
+  change Mon.run .start (eventsOf cfg react env) = some ph at h
+  rw [he] at h
+  obtain ⟨ha, hb⟩ := Mon.connectFail_position h
+  refine ⟨?_, ha, hb⟩
+  intro p hp; rw [ha] at hp; simp at hp
+
+/-- **`Disconnected` afterwards**: a `Disconnected` event is preceded by `Connected`, and nothing
+    follows it. -/
+theorem terminal_kind_disconnected (cfg : Cfg) (react : React) (env : List EnvStep)
+    (a b : List Event) (k : String) (g : Bool) (he : eventsOf cfg react env = a ++ .disconnected k g :: b) :
+    (∃ p, Event.connected p ∈ a) ∧ b = [] := by
+  obtain ⟨ph, h⟩ := runAll_accepted cfg react env
+  change Mon.run .start (eventsOf cfg react env) = some ph at h
+  rw [he] at h
+  exact Mon.disconnected_after_connected h
+
+/-- when `run()` returns, the last event is the terminal one, and it is `Disconnected` exactly when
+    the connection had come up (`Connected` was yielded), `ConnectFail` otherwise -/
+theorem terminal_kind (cfg : Cfg) (react : React) (env : List EnvStep) (s : Sys)
+    (hr : run (initSys cfg react env) = .ok () s) :
+    ∃ a e, eventsOf cfg react env = a ++ [e] ∧
+      (((∃ k g, e = .disconnected k g) ∧ ∃ p, Event.connected p ∈ a) ∨
+       ((∃ k, e = .connectFail k) ∧ ∀ p, Event.connected p ∉ a)) := by
+  have hc : Mon.complete (eventsOf cfg react env) := by
+    have h := (run_spec cfg react env).1
+    unfold Mon.complete eventsOf
+    rw [runAll_events, ← phaseOf_eq_run]
+    rw [hr] at h ⊢; exact h
+  obtain ⟨a, e, he, ht, _⟩ := Mon.complete_ends_terminal hc
+  refine ⟨a, e, he, ?_⟩
+  cases e <;> simp [Event.isTerminal] at ht
+  · rename_i k
+    exact Or.inr ⟨⟨k, rfl⟩, (terminal_kind_connectFail cfg react env a [] k he).1⟩
+  · rename_i k g
+    exact Or.inl ⟨⟨k, g, rfl⟩, (terminal_kind_disconnected cfg react env a [] k g he).1⟩
+
+/-- **The socket is closed when the terminal event is delivered.**  Whenever a socket existed
+    (`_connect` succeeded), every terminal event in the trace — `ConnectFail` because the upgrade
+    request could not be written, or `Disconnected` for whatever reason — is preceded by the
+    `sockClose` observation (`socket.close()` was called).  (When `_connect` failed there never was a
+    socket: see `no_socket_on_connect_failure`.) -/
+theorem socket_closed_at_terminal (cfg : Cfg) (react : React) (env : List EnvStep) (proxy : Bool)
+    (hc : cfg.connect = .ok proxy) (post pre : List Obs) (e : Event)
+    (ht : (runAll cfg react env).trace = post ++ .ev e :: pre) (hterm : Event.isTerminal e = true) :
+    Obs.sockClose ∈ pre :=
+  termOK_split (termOK_runAll cfg react env proxy hc) post pre e ht hterm
+
+/-- **`graceful=True` only when a side had started the closing handshake.**  Whenever
+    `Disconnected(graceful=True)` is delivered, then before it either a `Closing`, `Closed` or
+    `Rejected` event was delivered (the server sent a Close frame, or refused the upgrade), or the
+    application called `close()` in reaction to an event history it had really been shown (`h'` is a
+    suffix of the events delivered before the `Disconnected`).  Contrapositive: a transport failure
+    (or anything else) while neither side had started the closing handshake gives `graceful=False`. -/
+theorem graceful_only_after_close_started (cfg : Cfg) (react : React) (env : List EnvStep)
+    (post pre : List Obs) (k : String)
+    (ht : (runAll cfg react env).trace = post ++ .ev (.disconnected k true) :: pre) :
+    (∃ e, Obs.ev e ∈ pre ∧ Event.closeCause e = true) ∨
+    (∃ h', h' <:+ histOf pre ∧ ∃ c a, Act.close c a ∈ react h') := by
+  rcases gracefulOK_split (gracefulOK_runAll cfg react env) post pre k ht with ⟨e, he, hc⟩ | h
+  · exact Or.inl ⟨e, mem_histOf.mp he, hc⟩
+  · exact Or.inr h
+
+/-- the history shown to the application is exactly the list of events yielded (newest first), so
+    `histOf` above is what `react` was applied to -/
+theorem hist_is_events (cfg : Cfg) (react : React) (env : List EnvStep) :
+    (runAll cfg react env).hist = histOf (runAll cfg react env).trace := by
+  have hi := (run_spec cfg react env).2.2.1
+  rcases runAll_cases cfg react env with ⟨s, hr, e⟩ | ⟨s, hr, _, kp⟩ | ⟨s, hr, e⟩
+  · rw [hr] at hi; rw [e]; exact hi
+  · rw [hr] at hi; exact kp.hi hi
+  · rw [hr] at hi; rw [e]; exact hi
+
+/-- the `else:` clause is the only place `graceful=True` comes from, and the loop ends normally only
+    with the websocket closed, or at an end-of-stream that arrives while the closing handshake is
+    under way -/
+theorem loop_normal_end (env : List EnvStep) (s s' : Sys) (h : loop env s = .ok () s') :
+    s'.closed = true ∨ s'.closing = true :=
+  loop_ok_closing env s s' h
+
+/-- a transport failure while neither side has started the closing handshake raises `_SocketFail`
+    (or the other exception), never ends the loop normally: the `graceful=False` direction at the
+    level of one `recv` -/
+theorem recv_failure_not_graceful (o : RecvOutcome) (ho : o = .eof ∨ o = .sockErr ∨ o = .otherErr) (s : Sys)
+    (hcl : s.closing = false) (hcd : s.closed = false) : ∃ x, recvStep o s = .err x s ∧
+      (x = .socketFail "connection-lost" ∨ x = .socketFail "recv-fail" ∨ x = .other "error") := by
+  have heof : onEof s = .err (.socketFail "connection-lost") s := by
+    unfold onEof; simp [hcl, hcd]
+  unfold recvStep
+  split
+  · exact ⟨_, heof, Or.inl rfl⟩
+  · rcases ho with rfl | rfl | rfl
+    · exact ⟨_, heof, Or.inl rfl⟩
+    · exact ⟨_, rfl, Or.inr (Or.inl rfl)⟩
+    · exact ⟨_, rfl, Or.inr (Or.inr rfl)⟩
+
+/-! ### what the application sees from its own send calls -/
+
+/-- **Application send calls report transport trouble only as `WebSocketError` subclasses.**  In any
+    state (socket gone, websocket closing or closed, `sendall` raising, …) a send call made by the
+    application never raises anything else: its outcome is success, `TypeError`/`ValueError` for bad
+    arguments, or a `WebSocketError`; it is recorded and the iteration goes on. -/
+theorem app_errors_are_ws_errors (a : Act) (ha : isSend a = true) (s : Sys) :
+    ∃ (r : ActRes) (s1 : Sys), doAct a s = .ok () { s1 with trace := .res r :: s1.trace } ∧ sendOutcomeOK r := by
+  have key : ∀ m : M ActRes, (∀ r s1, m s = .ok r s1 → sendOutcomeOK r) → Monitor.NoRaise m →
+      ∃ (r : ActRes) (s1 : Sys), logRes m s = .ok () { s1 with trace := .res r :: s1.trace } ∧ sendOutcomeOK r := by
+    intro m hm hn
+    cases hms : m s with
+    | err x s1 => exact absurd hms (hn s x s1)
+    | ok r s1 => exact ⟨r, s1, by unfold logRes; rw [bind_ok hms]; rfl, hm r s1 hms⟩
+  have hpure : ∀ r0 : ActRes, sendOutcomeOK r0 → ∀ r s1, (pure r0 : M ActRes) s = .ok r s1 → sendOutcomeOK r := by
+    intro r0 h0 r s1 h; cases h; exact h0
+  have hsd : ∀ op pl c r s1, sendData op pl c s = .ok r s1 → sendOutcomeOK r := by
+    intro op pl c r s1 h
+    unfold sendData at h
+    split at h <;> exact sendFrame_outcome h
+  unfold doAct
+  split
+  all_goals first
+    | (cases ha; done)
+    | exact key _ (hpure _ (Or.inr (Or.inl rfl))) (Monitor.noRaise_pure _)
+    | exact key _ (hsd _ _ _) (Monitor.noRaise_sendData _ _ _)
+    | skip
+  · split
+    · exact key _ (hpure _ (Or.inr (Or.inr (Or.inl rfl)))) (Monitor.noRaise_pure _)
+    · exact key _ (hsd _ _ _) (Monitor.noRaise_sendData _ _ _)
+  · split
+    · exact key _ (hpure _ (Or.inr (Or.inr (Or.inl rfl)))) (Monitor.noRaise_pure _)
+    · exact key _ (fun r s1 h => sendFrame_outcome h) (Monitor.noRaise_sendFrame _ _ _)
+  · split
+    · exact key _ (hpure _ (Or.inr (Or.inr (Or.inl rfl)))) (Monitor.noRaise_pure _)
+    · exact key _ (fun r s1 h => sendFrame_outcome h) (Monitor.noRaise_sendFrame _ _ _)
+
+/-- when `_connect` fails there never is a socket: the connection ends with `ConnectFail` right after
+    `Connecting` and the socket flag is never raised -/
+theorem no_socket_on_connect_failure (cfg : Cfg) (react : React) (env : List EnvStep)
+    (hc : cfg.connect = .socketFail ∨ cfg.connect = .otherFail) :
+    (run (initSys cfg react env)).state.sockOpen = false := by
+  unfold run
+  have st := step_yieldEv .connecting (initSys cfg react env)
+  cases hy : yieldEv .connecting (initSys cfg react env) with
+  | err x s1 => rw [hy] at st; rw [bind_err hy]; exact st.sockMono rfl
+  | ok u s1 =>
+    rw [hy] at st; simp only [Res.state_ok] at st
+    rw [bind_ok hy, bind_ok (show getS s1 = .ok s1 s1 from rfl)]
+    have hcfg : s1.cfg.connect = cfg.connect := by rw [st.cfg]; rfl
+    rcases hc with hc | hc
+    · rw [hcfg, hc]; exact (step_yieldEv _ s1).sockMono (st.sockMono rfl)
+    · rw [hcfg, hc]; exact (step_yieldEv _ s1).sockMono (st.sockMono rfl)
+
+/-! ### the per-address connect loop (`_connect_sock`, Model/Connect.lean) -/
+
+open Lomond.Connect in
+/-- **Each address is tried before giving up.**  For every `getaddrinfo` outcome and every outcome
+    per resolved address: `_connect_sock` fails (`_SocketFail`, which `run()` turns into `ConnectFail`)
+    iff the name does not resolve or *no* address connects; otherwise it returns the socket of the
+    *first* address that connects.  `socket()` is called for the addresses `0, 1, …` in order, each
+    once, up to and including the first that connects (all of them when none does); and a socket is
+    closed exactly when its `connect()` failed. -/
+theorem all_addresses_tried (gai : Option (List AddrOutcome)) :
+    ((connectSock gai).1 = .fail ↔ (gai = none ∨ ∃ addrs, gai = some addrs ∧ ∀ a ∈ addrs, a ≠ .ok)) ∧
+    (∀ i, (connectSock gai).1 = .sock i ↔
+      ∃ addrs, gai = some addrs ∧ addrs[i]? = some .ok ∧ ∀ j, j < i → addrs[j]? ≠ some .ok) ∧
+    (∀ addrs, gai = some addrs →
+      (connectSock gai).2.filterMap Call.socketIdx? = List.range (tried addrs) ∧
+      tried addrs ≤ addrs.length ∧
+      ((connectSock gai).1 = .fail → tried addrs = addrs.length) ∧
+      ∀ j, Call.close j ∈ (connectSock gai).2 ↔ (j < tried addrs ∧ addrs[j]? = some .connectFail)) := by
+  cases gai with
+  | none =>
+    refine ⟨⟨fun _ => Or.inl rfl, fun _ => rfl⟩, fun i => ⟨fun h => (by cases h), fun ⟨_, h, _⟩ => (by cases h)⟩,
+      fun addrs h => (by cases h)⟩
+  | some addrs =>
+    have hres := attempt_result 0 addrs
+    have hsock := attempt_sockets 0 addrs
+    have hclose := attempt_close 0 addrs
+    simp only [Nat.add_zero, List.map_id'] at hres hsock hclose
+    have hmap : (firstOk addrs).map (fun x => x) = firstOk addrs := by cases firstOk addrs <;> rfl
+    rw [hmap] at hres
+    unfold connectSock
+    simp only []
+    cases hat : attempt 0 addrs with
+    | mk res l =>
+      rw [hat] at hres hsock hclose
+      simp only at hres hsock hclose
+      cases res with
+      | none =>
+        have hno := firstOk_none.mp hres.symm
+        have htr : tried addrs = addrs.length := by unfold tried; rw [← hres]
+        refine ⟨⟨fun _ => Or.inr ⟨addrs, rfl, hno⟩, fun _ => rfl⟩, ?_, ?_⟩
+        · intro i
+          constructor
+          · intro h; cases h
+          · rintro ⟨a, ha, hok, _⟩
+            cases ha
+            exact absurd rfl (hno _ (List.mem_of_getElem? hok))
+        · intro a ha; cases ha
+          exact ⟨hsock, tried_le _, fun _ => htr, hclose⟩
+      | some k =>
+        obtain ⟨h1, h2⟩ := firstOk_some hres.symm
+        refine ⟨⟨fun h => (by cases h), ?_⟩, ?_, ?_⟩
+        · rintro (h | ⟨a, ha, hno⟩)
+          · cases h
+          · cases ha
+            exact absurd rfl (hno _ (List.mem_of_getElem? h1))
+        · intro i
+          constructor
+          · intro h; cases h; exact ⟨addrs, rfl, h1, h2⟩
+          · rintro ⟨a, ha, hok, hlt⟩
+            cases ha
+            have : i = k := by
+              rcases Nat.lt_trichotomy i k with h | h | h
+              · exact absurd hok (h2 i h)
+              · exact h
+              · exact absurd h1 (hlt k h)
+            rw [this]
+        · intro a ha; cases ha
+          exact ⟨hsock, tried_le _, fun h => (by cases h), hclose⟩
+
+/-- non-vacuity: three addresses — refused, `socket()` fails, connects: the third socket is returned,
+    all three were tried in order, the refused one was closed -/
+example : Connect.connectSock (some [.connectFail, .sockCreateFail, .ok]) =
+    (.sock 2, [.socket 0, .connect 0, .close 0, .socket 1, .socket 2, .connect 2]) := by decide
+example : Connect.connectSock (some [.connectFail, .connectFail]) =
+    (.fail, [.socket 0, .connect 0, .close 0, .socket 1, .connect 1, .close 1]) := by decide
+example : Connect.connectSock none = (.fail, []) := by decide
+
+/-! Non-vacuity: faults at the individual socket operations, on a concrete connection. -/
+
+def exReply : Bytes :=
+  [72, 84, 84, 80, 47, 49, 46, 49, 32, 49, 48, 49, 32, 88, 13, 10, 85, 112, 103, 114, 97, 100, 101, 58, 32, 119,
+   101, 98, 115, 111, 99, 107, 101, 116, 13, 10, 83, 101, 99, 45, 87, 101, 98, 83, 111, 99, 107, 101, 116, 45, 65,
+   99, 99, 101, 112, 116, 58, 32, 107, 13, 10, 13, 10]
+def exCfg : Cfg := { challenge := [107] }
+
+/-- `recv` raises a socket error in the middle of a frame (after the upgrade and half a Text frame):
+    `Disconnected(graceful=False)`, preceded by the socket close -/
+example : (runAll exCfg (fun _ => []) [.wait 0 (some (.data (exReply ++ [0x81, 2, 104]))), .wait 0 (some .sockErr)]).trace =
+    [.selClose, .ev (.disconnected "recv-fail" false), .sockClose, .ev .poll, .ev (.ready none false),
+     .ev (.connected false), .wr [], .ev .connecting] := by decide +kernel
+
+/-- `selector.wait` raises; an arbitrary exception from `recv`; EOF before the upgrade reply -/
+example : eventsOf exCfg (fun _ => []) [.selErr] =
+    [.connecting, .connected false, .disconnected "error" false] := by decide +kernel
+example : eventsOf exCfg (fun _ => []) [.wait 0 (some .otherErr)] =
+    [.connecting, .connected false, .disconnected "error" false] := by decide +kernel
+example : eventsOf exCfg (fun _ => []) [.wait 0 (some .eof)] =
+    [.connecting, .connected false, .disconnected "connection-lost" false] := by decide +kernel
+
+/-- the write of the upgrade request fails: `ConnectFail`, socket closed first -/
+example : (runAll { exCfg with writeFails := fun k => k == 0 } (fun _ => []) []).trace =
+    [.ev (.connectFail "request-failed"), .sockClose, .wrFail [], .ev .connecting] := by decide +kernel
+
+/-- the automatic pong cannot be written (second `sendall` fails): the failure is swallowed as
+    `TransportFail`, the Ping is still delivered, and the EOF that follows gives `graceful=False` -/
+example : (runAll { exCfg with writeFails := fun k => k == 1 } (fun _ => [])
+      [.wait 0 (some (.data (exReply ++ [0x89, 1, 112]))), .wait 0 (some .eof)]).trace =
+    [.selClose, .ev (.disconnected "connection-lost" false), .sockClose, .ev (.ping [112]), .wrFail [138, 129, 0, 0, 0, 0, 112],
+     .ev .poll, .ev (.ready none false), .ev (.connected false), .wr [], .ev .connecting] := by decide +kernel
+
+/-- an application send on a broken transport reports `TransportFail` (a WebSocketError), nothing else -/
+example : (runAll { exCfg with writeFails := fun k => k == 1 }
+      (fun h => if h.length = 3 then [.sendText (.str [104]) false] else [])
+      [.wait 0 (some (.data exReply)), .wait 0 (some .eof)]).trace =
+    [.selClose, .ev (.disconnected "connection-lost" false), .sockClose, .ev .poll, .res .transportFail,
+     .wrFail [129, 129, 0, 0, 0, 0, 104], .ev (.ready none false), .ev (.connected false), .wr [], .ev .connecting] := by
+  decide +kernel
+
+/-- graceful: the application closes, the server answers with EOF instead of a Close frame -/
+example : eventsOf exCfg (fun h => if h.length = 3 then [.close (some 1000) (.bytes [])] else [])
+      [.wait 0 (some (.data exReply)), .wait 0 (some .eof)] =
+    [.connecting, .connected false, .ready none false, .poll, .disconnected "closed" true] := by decide +kernel
+
 end Lomond.C09
